@@ -492,7 +492,7 @@ def check_ctor(case, out):
 
 
 # ---------------------------------------------------------------------------------------------- snapshot machines
-DOPS = ["add_node", "edge_same", "edge_same_late", "edge_next", "edge_next", "edge_same", "edge_next_late", "edge_back", "edge_far", "edge_bad", "copy", "copy_edit", "add_cpd"]
+DOPS = ["add_node", "edge_same", "edge_same_late", "edge_next", "edge_next", "edge_same", "edge_next_late", "edge_back", "edge_far", "edge_bad", "copy", "copy_edit", "add_cpd", "remove_cpd", "get_cpds_slice"]
 
 
 @st.composite
@@ -564,6 +564,21 @@ def run_dbn(case, out):
                 if node in g.nodes():
                     ps = list(g.get_parents(node))
                     g.add_cpds(TabularCPD(node, 2, [[0.5] * (2 ** len(ps)), [0.5] * (2 ** len(ps))], evidence=ps or None, evidence_card=[2] * len(ps) or None))
+        elif op == "remove_cpd":
+            def call():
+                node = (u, 0)
+                if node in g.nodes() and g.get_cpds(node) is not None:
+                    n0 = len(g.cpds)
+                    g.remove_cpds(g.get_cpds(node))
+                    if len(g.cpds) != n0 - 1:  # (add_cpds keeps earlier CPDs of the same variable: another one may remain)
+                        out.fail("dbn.remove_cpd:not_removed", f"{node}")
+        elif op == "get_cpds_slice":
+            def call():
+                # the CPDs reported for slice t are exactly those of variables (x, t)
+                for t in (0, 1):
+                    got = g.get_cpds(time_slice=t)
+                    if any(c.variable[1] != t for c in got):
+                        out.fail("dbn.get_cpds:wrong_slice", f"slice {t}: {[str(c.variable) for c in got]}")
         out.evals += 1
         idx = sibs.index(g)
         try:
